@@ -152,11 +152,9 @@ def cases():
         ("Gamma(1,2)", lambda s: D.DistGamma(s, 1.0, 2.0), nn),
         ("Gamma(2.5,2)", lambda s: D.DistGamma(s, 2.5, 2.0), nn),
         ("Geometric(0.3)", lambda s: D.DistGeometric(s, 0.3), inn),
-        ("Geometric(0.0)", lambda s: D.DistGeometric(s, 0.0), inn),
         ("Geometric(1.0)", lambda s: D.DistGeometric(s, 1.0), inn),
         ("LogNormal(0,1)", lambda s: D.DistLogNormal(s, 0.0, 1.0), nn),
         ("NegBinomial(2,0.3)", lambda s: D.DistNegBinomial(s, 2, 0.3), inn),
-        ("NegBinomial(2,0.0)", lambda s: D.DistNegBinomial(s, 2, 0.0), inn),
         ("NegBinomial(2,1.0)", lambda s: D.DistNegBinomial(s, 2, 1.0), inn),
         ("Normal(1,2)", lambda s: D.DistNormal(s, 1.0, 2.0), fin),
         ("NormalTrunc(0,1,-1,2)",
@@ -232,9 +230,19 @@ def script_worker(task):
                     x = d.draw()
                 except Exception as ex:  # noqa
                     used = list(script[:st.i])
-                    sig = "C14:draw-raises:%s:%s:%s" % (
+                    # what kind of stream output triggered it is part of the
+                    # identity of a finding
+                    if 0.0 in used:
+                        trig = "zero-uniform"
+                    elif 5e-324 in used:
+                        trig = "subnormal-uniform"
+                    elif used[:2] == [0.5, 0.5]:
+                        trig = "polar-pair-half-half"
+                    else:
+                        trig = "ordinary-uniforms"
+                    sig = "C14:draw-raises:%s:%s:%s:%s" % (
                         name.split("(")[0], type(ex).__name__,
-                        raising_site(ex))
+                        raising_site(ex), trig)
                     viols.append((sig, "%s: draw() raises %s (%s) for stream "
                                   "output %s" % (name, type(ex).__name__, ex,
                                                  used),
@@ -436,7 +444,7 @@ def extreme_parameter_worker(idx):
         try:
             x = d.draw()
         except Exception as ex:  # noqa
-            viols.append(("C14:draw-raises:%s:%s:%s" % (
+            viols.append(("C14:draw-raises:%s:%s:%s:extreme-parameters" % (
                 name.split("(")[0], type(ex).__name__, raising_site(ex)),
                 "%s: draw #%d on an ordinary stream raises %s: %s" % (
                     name, i, type(ex).__name__, ex),
@@ -475,11 +483,11 @@ def constructor_table():
         "DistExponential": (1, lambda m: isnum(m) and m > 0),
         "DistGamma": (2, lambda sh, sc: isnum(sh) and isnum(sc) and sh > 0
                       and sc > 0),
-        "DistGeometric": (1, lambda p: isinstance(p, float) and 0 <= p <= 1),
+        "DistGeometric": (1, lambda p: isinstance(p, float) and 0 < p <= 1),
         "DistLogNormal": (2, lambda mu, sg: isnum(mu) and isnum(sg)
                           and sg > 0),
         "DistNegBinomial": (2, lambda s, p: isint(s) and isinstance(p, float)
-                            and s > 0 and 0 <= p <= 1),
+                            and s > 0 and 0 < p <= 1),
         "DistNormal": (2, lambda mu, sg: isnum(mu) and isnum(sg) and sg > 0),
         "DistPearson5": (2, lambda a, b: isnum(a) and isnum(b) and a > 0
                          and b > 0),
